@@ -165,6 +165,30 @@ for f, tag in (('udp.c', 'UDP'), ('tcp.c', 'TCP'), ('tls.c', 'TLS'), ('dtls.c', 
         except Exception:
             missing.append('protodefs %s of %s' % (nm, f))
 
+
+# ---- the connecters of the connection-oriented transports: the order in which each one changes the server's
+# state, raises the connection-reset flag and signals the writer (C12).  Codes: 1 state := RECONNECTING,
+# 2 state := CONNECTED, 3 conreset := reconnect, 4 signal newrq_cond, 5 any other assignment to state or conreset.
+def connecter(fname, func):
+    s = strip_comments(src(fname))
+    m = re.search(r'^int\s+' + func + r'\s*\([^)]*\)\s*\{(.*?)^\}', s, flags=re.S | re.M)
+    if not m:
+        missing.append('%s (%s)' % (func, fname))
+        return None
+    seq = []
+    for x in re.finditer(r'server->state\s*=\s*([A-Za-z_0-9]+)\s*;|server->conreset\s*=\s*([A-Za-z_0-9]+)\s*;|pthread_cond_(?:signal|broadcast)\s*\(\s*&server->newrq_cond\s*\)', m.group(1)):
+        if x.group(1):
+            seq.append({'RSP_SERVER_STATE_RECONNECTING': 1, 'RSP_SERVER_STATE_CONNECTED': 2}.get(x.group(1), 5))
+        elif x.group(2):
+            seq.append(3 if x.group(2) == 'reconnect' else 5)
+        else:
+            seq.append(4)
+    return seq
+for f, fn in (('tcp.c', 'tcpconnect'), ('tls.c', 'tlsconnect'), ('dtls.c', 'dtlsconnect')):
+    seq = connecter(f, fn)
+    if seq is not None:
+        tables['connecter_' + fn] = seq
+
 lines = []
 lines.append("(* GENERATED by tools/gen_consts.py from the repository sources -- do not edit. *)")
 for x in missing:
